@@ -154,7 +154,21 @@ func genC07Bad(t *rapid.T) c07BadCase {
 		n := rapid.IntRange(2, 64).Draw(t, "n")
 		body := ref.B32(rapid.SliceOfN(rapid.Byte(), n, n).Draw(t, "key"))
 		pos := rapid.IntRange(1, len(body)-1).Draw(t, "pos")
-		run := strings.Repeat(rapid.SampledFrom(badChars).Draw(t, "ch"), rapid.SampledFrom([]int{1, 1, 1, 2, 5, 8, 16}).Draw(t, "run"))
+		bad := rapid.SampledFrom(badChars).Draw(t, "ch")
+		if rapid.IntRange(0, 3).Draw(t, "aliasK") == 0 {
+			// a non-ASCII rune whose low 8 (or 16) bits are an alphabet character or '=': outside the alphabet all the same
+			lowc := rune((alphabet + "=abcdefghijklmnopqrstuvwxyz")[rapid.IntRange(0, 58).Draw(t, "aliasLow")])
+			hi := rune(rapid.IntRange(1, 0xff).Draw(t, "aliasHi"))
+			r := hi<<8 | lowc
+			if rapid.Bool().Draw(t, "alias16") {
+				r = rune(rapid.IntRange(1, 0x10).Draw(t, "aliasPlane"))<<16 | lowc
+			}
+			if r >= 0xd800 && r <= 0xdfff {
+				r = 0x100 | lowc
+			}
+			bad = string(r)
+		}
+		run := strings.Repeat(bad, rapid.SampledFrom([]int{1, 1, 1, 2, 5, 8, 16}).Draw(t, "run"))
 		if rapid.Bool().Draw(t, "replace") && pos+len(run) <= len(body)-1 {
 			text = body[:pos] + run + body[pos+len(run):]
 		} else {
